@@ -868,6 +868,8 @@ def to_number(q, inexact='fraction'):
     """int when integral, float when exactly representable (dyadic), else the Fraction
     itself (inexact='fraction') or the nearest double (inexact='float')."""
     q = Fraction(q)
+    if inexact == 'allfraction':
+        return q
     if q.denominator == 1:
         return int(q)
     den = q.denominator
